@@ -234,6 +234,16 @@ example : ((reach demoCfg 0 (silentPeer ++ [(24, .outside 0)])).circuits.map (fu
            ((reach demoCfg 0 (silentPeer ++ [(30, .outside 0)])).outs.filter (· == Out.cell 4 9 6)).length)
           = ([(2, false, false)], [(2, true, false)], [(2, true, true)], 3) := by decide +kernel
 
+/-- the same when the socket is only enabled DURING its post-mortem window (destroy at 3, first data cell at 5, pop
+    at 8): the close decision is taken on the entry that is popped, so the late transports are closed as well -/
+example : ((reach demoCfg 0 [(1, .cell 5 false true true (.create 1)), (3, .destroy 5 1),
+                             (5, .cell 5 false false true (.data true)), (7, .outside 0)]).exits.map
+              (fun p => (p.2.gone, p.2.opened)),
+           (reach demoCfg 0 [(1, .cell 5 false true true (.create 1)), (3, .destroy 5 1),
+                             (5, .cell 5 false false true (.data true)), (8, .outside 0)]).exits.map
+              (fun p => (p.2.gone, p.2.opened)))
+          = ([(false, true)], [(true, false)]) := by decide +kernel
+
 example : 0 < Gen.cfg.period := by decide
 
 end Ipv8.C09
